@@ -25,6 +25,10 @@ pub enum Op {
     /// operations execute (nothing is captured; a later completed snapshot is what a restart is
     /// compared with)
     SnapRace { db: usize, reclaim: bool },
+    /// `snapshot <reclaim>` is requested, the node's snapshot thread is released to run it, and the node is
+    /// told to stop (SIGINT) at once: the clean shutdown completes the pending snapshot (itself, or by
+    /// waiting for the snapshot thread) before the process exits; then the node is started again
+    CleanRestart { db: usize, reclaim: bool },
 }
 
 #[derive(Clone, Debug, Serialize, Deserialize)]
@@ -39,6 +43,10 @@ const KEYS: [&str; 3] = ["ka", "kb", "x"];
 const STRATS: [&str; 3] = ["none", "newer", "arbiter"];
 
 pub fn gen(rng: &mut Rng, long: bool) -> Program {
+    gen_with(rng, long, false)
+}
+
+pub fn gen_with(rng: &mut Rng, long: bool, clean_restarts: bool) -> Program {
     let ndbs = rng.range(1, 2) as usize;
     let dbs: Vec<String> = (0..ndbs).map(|_| STRATS[rng.below(3) as usize].to_string()).collect();
     let n = if long { rng.range(8, 40) } else { rng.range(2, 10) } as usize;
@@ -59,7 +67,13 @@ pub fn gen(rng: &mut Rng, long: bool) -> Program {
             10 => Op::Snapshot { db, reclaim: true },
             // (Op::SnapRace is not generated: the statement quantifies over sequential histories; the op
             //  exists for exploratory replay files, see findings/)
-            11 => Op::Restart,
+            11 => {
+                if clean_restarts && rng.chance(1, 3) {
+                    Op::CleanRestart { db, reclaim: rng.chance(1, 2) }
+                } else {
+                    Op::Restart
+                }
+            }
             12 => Op::Snapshot { db, reclaim: rng.chance(1, 2) },
             _ => Op::Remove { db, key },
         };
@@ -245,10 +259,45 @@ pub fn execute(prog: Program) -> Outcome {
                     }
                 }
             }
-            Op::Restart => {
-                // (a crash in the middle of a snapshot is C11's subject: let a racing one finish)
-                w.wait_declutter_idle(0, 20_000);
-                w.kill(0);
+            Op::Restart | Op::CleanRestart { .. } => {
+                if let Op::CleanRestart { db, reclaim } = op {
+                    if exists[*db] {
+                        select!(*db);
+                        w.wait_declutter_idle(0, 20_000);
+                        let r = admin.exec(&format!("snapshot {}", reclaim));
+                        if r.resp.is_err() {
+                            out.violations.push(Violation::new("snapshot-refused", "snapshot", format!("op #{} => {:?}", i, r.resp)));
+                            continue;
+                        }
+                        // what the completed snapshot must hold: the state now (no command follows)
+                        let d = match dump_db(&dbs, DBNAMES[*db]) {
+                            Some(d) => d,
+                            None => return out,
+                        };
+                        snap[*db] = Some(live_view(&d));
+                        snap_model[*db] = Some(model[*db].clone());
+                        racy[*db] = false;
+                        out.snapshots += 1;
+                        if *reclaim {
+                            out.reclaims += 1;
+                        }
+                        for ((d2, _k), h) in hist.iter_mut() {
+                            if d2 == db {
+                                h.push(if *reclaim { "SNAPR@shutdown" } else { "SNAP@shutdown" });
+                            }
+                        }
+                        w.declutter_kick(0);
+                    }
+                    w.sigint(0);
+                    if !w.wait_exit(0, 30_000) {
+                        out.violations.push(Violation::new("shutdown-stuck", "sigint-during-snapshot", format!("op #{}: the node did not exit within 30 s of SIGINT", i)));
+                        return out;
+                    }
+                } else {
+                    // (a crash in the middle of a snapshot is C11's subject: let a racing one finish)
+                    w.wait_declutter_idle(0, 20_000);
+                    w.kill(0);
+                }
                 w.boot(0, "");
                 if !w.wait_primary(0, 8_000) {
                     let panic = nundb_verif_rt::kernel::with(|k| k.panics.last().map(|p| format!("{} at {}", p.message, p.location)));
@@ -424,7 +473,7 @@ impl Property for C06 {
         (150_000, 3_000_000)
     }
     fn rule(&self) -> &'static str {
-        "histories of 2-10 (short) or 8-40 (long) steps of {set,set-safe,remove,increment,snapshot false,snapshot true,restart} over 2-3 keys and 1-2 databases (strategies none/newer/arbiter), values incl. empty, multi-byte UTF-8 and >250 bytes, half of the runs biased towards remove/snapshot alternations; every history ends with snapshot+restart. restart = process kill after a completed snapshot + real start_db on the surviving simulated disk. Non-trivial: at least one restart was compared against a completed snapshot. distinct = distinct programs."
+        "histories of 2-10 (short) or 8-40 (long) steps of {set,set-safe,remove,increment,snapshot false,snapshot true,restart} over 2-3 keys and 1-2 databases (strategies none/newer/arbiter), values incl. empty, multi-byte UTF-8 and >250 bytes, half of the runs biased towards remove/snapshot alternations; every history ends with snapshot+restart. restart = process kill after a completed snapshot + real start_db on the surviving simulated disk, or (one restart in three) a snapshot request whose background run is released and a SIGINT at once: the clean shutdown (safe_shutdown) must complete the pending snapshot before the process exits. Non-trivial: at least one restart was compared against a completed snapshot. distinct = distinct programs."
     }
     fn assumptions(&self) -> Vec<String> {
         vec![
@@ -440,7 +489,7 @@ impl Property for C06 {
         let mut rng = Rng::new(ctx.seed);
         let prog: Program = match &ctx.program {
             Some(p) => serde_json::from_value(p.clone()).expect("program"),
-            None => gen(&mut rng, scenario == "long"),
+            None => gen_with(&mut rng, scenario == "long", true),
         };
         let mut cfg = SimConfig::new(ctx.seed ^ 0xc06);
         cfg.policy = policy_for(Rng::new(ctx.seed ^ 0x9011c7).next_u64());
